@@ -177,7 +177,9 @@ class C17(Prop):
         "act componentwise (C17_components); the explicit step built from the model's matrices "
         "conserves sum(vol*c) under no-flow boundaries for ANY flux and time step "
         "(C17_conservative) and is a convex combination, hence within [min,max], for a "
-        "divergence-free flux under the CFL limit (C17_max_principle), over the reals. The model "
+        "divergence-free flux under the CFL limit (C17_max_principle), over the reals; the same "
+        "for every component of k interleaved components with the k-component matrices "
+        "(C17_conservative_k, C17_max_principle_k). The model "
         "is tied to the code on every run: Coq recomputes all three matrices (entries and shapes) "
         "from the real incidence of generated grids and compares with the implementation.")
     level_note = (
@@ -186,11 +188,12 @@ class C17(Prop):
         "the model sees the pair (m, k); NaN "
         "fluxes not modelled; the flux type enters the model only through sign(q)>=0, so the "
         "executed Z instance and the R instance of the theorems are the same polymorphic "
-        "definition. The step theorems are stated for one component (C17_components reduces k "
-        "components to it) and the step itself (c - dt/vol*Div(q*U c + Bd(q b) + Bn b), as "
+        "definition. The step itself (c - dt/vol*Div(q*U c + Bd(q b) + Bn b), as "
         "composed in models/constitutive_laws.py) is part of the specification, not of the "
-        "tied code; the oracle evaluates it exactly on the real matrices. The legacy "
-        "assemble_matrix_rhs sign convention and UpwindCoupling are outside this property. "
+        "tied code (the models' AD composition is not executed); the oracle evaluates it exactly on "
+        "the real matrices. The legacy assemble_matrix_rhs (whose right-hand-side sign is pinned "
+        "by the repository's tests) and UpwindCoupling are outside this property's statement and "
+        "are not tied. "
         "Robin / unflagged boundary faces are covered as the error branch only.")
     technique = ("Coq proof (characterisation of the transcribed discretisation, face-list "
                  "induction for conservation, convexity for the maximum principle over R) + "
@@ -202,7 +205,9 @@ class C17(Prop):
             "two from 2^-80..2^40 (cycle flows stay divergence free), and a quarter of the random "
             "fields mix magnitudes per face (2^-75..2^20 next to O(1)); bc: random Dirichlet/Neumann per boundary face, all-Neumann, "
             "all-Dirichlet, and a corner stream (Robin faces, unflagged boundary faces, faces "
-            "flagged both ways, flags on interior faces) reaching the ValueError branch; 1-3 "
+            "flagged both ways, flags on interior faces) reaching the ValueError branch; 12% of the "
+            "cases omit the bc parameter (the code's default: Dirichlet on the domain boundary), some "
+            "pass an integer-dtype flux array; 1-3 "
             "components; cycle-flow cases carry an explicit step (random cell values, dt = random "
             "fraction of the CFL limit). non-trivial = at least one non-zero flux on a grid with "
             ">= 2 cells")
@@ -241,6 +246,10 @@ class C17(Prop):
                         bc[f] = rng.choice([DIR, NEU])
             k = rng.choice([1, 1, 1, 2, 3])
             case = {"grid": spec, "flux": q, "bc": bc, "ncomp": k, "mode": mode}
+            if rng.random() < 0.12:
+                # no "bc" parameter: the code's default (Dirichlet on the domain boundary faces)
+                case["nobc"] = True
+                case["bc"] = bc = [DIR if f in bnd else NONE for f in range(nf)]
             # magnitudes: a common exact power of two (keeps cycle flows divergence free),
             # or, for random fields, a mix of tiny and O(1) faces within one field
             rs = rng.random()
@@ -251,6 +260,8 @@ class C17(Prop):
             elif rs < 0.75 and mode == "random":
                 case["scale"] = rng.choice([0, 0, -10, 5])
                 case["fexp"] = [rng.choice([0, 0, 0, -70, -60, -75, -53, 20]) for _ in range(nf)]
+            elif rs > 0.9:
+                case["intflux"] = True        # integer dtype flux array
             if mode == "cycles" and r < 0.85:
                 vol = [Fraction(float(v)) for v in g.cell_volumes]
                 cfl = None
@@ -281,10 +292,15 @@ class C17(Prop):
         bc.is_dir = np.isin(code, [DIR, BOTH])
         bc.is_neu = np.isin(code, [NEU, BOTH])
         bc.is_rob = code == ROB
-        data = pp.initialize_data(g, {}, KW, {
-            "bc": bc, "darcy_flux": np.array([math.ldexp(float(m), k) for m, k in flux_parts(case)],
-                                             dtype=float),
-            "num_components": case["ncomp"]})
+        if case.get("intflux"):
+            flux_arr = np.array([m * 2 ** k for m, k in flux_parts(case)], dtype=int)
+        else:
+            flux_arr = np.array([math.ldexp(float(m), k) for m, k in flux_parts(case)], dtype=float)
+        par = {"bc": bc, "darcy_flux": flux_arr, "num_components": case["ncomp"]}
+        if case.get("nobc"):
+            del par["bc"]
+        data = pp.initialize_data(g, {}, KW, par)
+        data[pp.PARAMETERS][KW].pop("bc", None) if case.get("nobc") else None
         discr = pp.Upwind(KW)
         res = {"dim": int(g.dim), "nf": int(nf), "nc": int(nc), "cf": incidence(g),
                "vol": [[Fraction(float(v)).numerator, Fraction(float(v)).denominator]
